@@ -299,6 +299,67 @@ fn classify(text: &str, generated: &str, stderr: &str) -> Option<&'static str> {
             return Some("F-explicit-struct-automatic");
         }
     }
+    // --- value notation (found by C07's value generator; the §3 generator of this check stays
+    // inside the notation whose bindings type-check) -------------------------------------
+    // F-struct-value-ctor: a SEQUENCE value that is not the direct value of an assignment
+    // governed by the SEQUENCE type itself (DEFAULT, governed through a type reference) is
+    // wrapped once more in the struct's name, or built with `new` on the delegate
+    if !errs.is_empty()
+        && generated.contains(":: new (")
+        && errs.iter().all(|l| {
+            l.starts_with("error[E0423]: expected function, tuple struct or tuple variant, found struct `")
+                || (l.starts_with("error[E0599]: no function or associated item named `new` found for struct `"))
+        })
+    {
+        let ok = errs.iter().all(|l| {
+            let name = l.split('`').rev().nth(1).unwrap_or("?");
+            let name = if l.contains("E0599") { l.split("found for struct `").nth(1).and_then(|r| r.split('`').next()).unwrap_or("?") } else { name };
+            generated.contains(&format!("{name} ({name} :: new (")) || generated.contains(&format!("{name} :: new (")) && generated.contains(&format!("pub struct {name} (pub "))
+        });
+        if ok {
+            return Some("F-struct-value-ctor");
+        }
+    }
+    // F-struct-value-optional: a present OPTIONAL member of a SEQUENCE value is passed to
+    // `new` without `Some(..)`
+    if !errs.is_empty()
+        && text.contains("OPTIONAL")
+        && generated.contains(":: new (")
+        && errs.iter().all(|l| l.starts_with("error[E0308]: mismatched types") || l.starts_with("error[E0308]: arguments to this function are incorrect"))
+        && stderr.lines().filter(|l| l.contains("expected `")).all(|l| l.contains("expected `Option<"))
+        && stderr.contains("expected `Option<")
+    {
+        return Some("F-struct-value-optional");
+    }
+    // F-oid-prefix-alias: an OID value whose first component is a value of a *referenced*
+    // OBJECT IDENTIFIER type is spliced with `&***X`, one dereference too many for a delegate
+    if !errs.is_empty()
+        && generated.contains("& * * * ")
+        && errs.iter().all(|l| l.starts_with("error[E0614]: type `") && l.ends_with("` cannot be dereferenced"))
+    {
+        return Some("F-oid-prefix-alias");
+    }
+    // F-nested-valueref-lazy: a value reference nested in a SEQUENCE / SEQUENCE OF / CHOICE value
+    // names a lazily initialised static where the value itself is needed
+    if !errs.is_empty()
+        && errs.iter().all(|l| l.starts_with("error[E0308]: mismatched types") || l.starts_with("error[E0308]: arguments to this function are incorrect"))
+        && stderr.contains("found `LazyLock<")
+        && stderr.lines().filter(|l| l.contains("expected `") && l.contains("found `")).all(|l| l.contains("found `LazyLock<"))
+    {
+        return Some("F-nested-valueref-lazy");
+    }
+    // F-oid-unknown-name: the X.660 name forms `ccitt` and `a`..`z` are not in the table of
+    // well-known arcs and are taken for value references
+    if !errs.is_empty() && errs.iter().all(|l| l.starts_with("error[E0425]: cannot find value `")) {
+        let names: Vec<String> = errs.iter().map(|l| l.split('`').nth(1).unwrap_or("?").to_lowercase().replace('_', "-")).collect();
+        let x660 = ["ccitt", "question", "recommendation", "administration", "network-operator", "identified-organization", "r-recommendation"];
+        let in_oid_value = |n: &str| text.split('{').skip(1).any(|seg| seg.split('}').next().unwrap_or("").split_whitespace().any(|w| w == n));
+        if names.iter().any(|n| n == "ccitt" || (n.len() == 1 && n.chars().all(|c| c.is_ascii_lowercase())))
+            && names.iter().all(|n| (x660.contains(&n.as_str()) || n.len() == 1) && in_oid_value(n))
+        {
+            return Some("F-oid-unknown-name");
+        }
+    }
     // F-empty-set
     if !errs.is_empty()
         && errs.iter().all(|l| l.starts_with("error: struct without fields not allowed to be a `set`"))
@@ -423,7 +484,9 @@ pub fn run(tier: Tier, seed: u64, replay: Option<String>) -> i32 {
     };
     if let Some(path) = replay {
         let v: Value = serde_json::from_str(&std::fs::read_to_string(&path).expect("replay file")).expect("json");
-        return replay_one(&mut ctx, &host, &v, true);
+        replay_one(&mut ctx, &host, &v, true);
+        // exit status and KNOWN-FINDING / VIOLATION lines as for a full run
+        return ctx.finish();
     }
     // replay tier
     for (_p, v) in ev::replay_files("C01") {
